@@ -134,6 +134,32 @@ ILL = [
     ("Vec element of another type", "let v7: Vec[int32] = vec_new(); let _ = vec_push(v7, \"s\");"),
     ("dyn coercion without impl", "let d7: dyn Tick = true;"),
     ("trait method on a type without impl", "let _ = Tick::val(\"s\");"),
+    ("tuple literal longer than its annotation", "let t9: (int32, bool) = (1, true, 3);"),
+    ("tuple literal shorter than its annotation", "let t9: (int32, bool, int32) = (1, true);"),
+    ("tuple argument longer than the parameter type", "let f6 = |p6: (int32, int32)| p6.0; let _ = f6((1, 2, 3));"),
+    ("tuple argument shorter than the parameter type", "let f6 = |p6: (int32, int32, int32)| p6.0; let _ = f6((1, 2));"),
+    ("tuple component of another type", "let t8: (int32, bool) = (true, 1);"),
+    ("tuple pattern longer than the scrutinee", "let _ = match (1, true) { (a6, b6, c6) => 1 };"),
+    ("tuple pattern shorter than the scrutinee", "let _ = match (1, true, 2) { (a6, b6) => 1 };"),
+    ("let tuple pattern longer than the value", "let (a7, b7, c7) = (1, 2);"),
+    ("let tuple pattern shorter than the value", "let (a7, b7) = (1, 2, 3);"),
+    ("enum pattern with too many sub-patterns", "let _ = match B(1) { A => 0, B(n6, m6) => 1, C(f6, n6) => 2 };"),
+    ("enum pattern with too few sub-patterns", "let _ = match C(true, 1) { A => 0, B(n6) => 1, C(f6) => 2 };"),
+    ("struct literal with an extra field", "let _ = P { a: 1, b: true, zz: 2 };"),
+    ("struct pattern with an unknown field", "let _ = match P { a: 1, b: true } { P { a: a6, zz: z6 } => 1 };"),
+    ("closure applied to too many arguments", "let f5 = |x: int32| x; let _ = f5(1, 2);"),
+    ("closure applied to too few arguments", "let f5 = |x: int32, y: int32| x + y; let _ = f5(1);"),
+    ("trait method with an extra argument", "let d6: dyn Tick = 4; let _ = Tick::val(d6, 1);"),
+    ("field access on an int", "let n6 = 1; let _ = n6.a;"),
+    ("string plus int", "let _ = \"a\" + 1;"),
+    ("unit used as a number", "let _ = () + 1;"),
+    ("ref_get of a non-reference", "let _ = ref_get(1);"),
+    ("array index of another type", "let _ = array_get([1, 2], true);"),
+    ("vec_get on an array", "let _ = vec_get([1, 2], 0);"),
+    ("array literal longer than its annotation", "let arr: [int32; 2] = [1, 2, 3];"),
+    ("nested tuple component arity", "let t9: (int32, (bool, int32)) = (1, (true, 2, 3));"),
+    ("tuple returned from a closure at the wrong arity", "let f4 = |x: int32| (x, x); let t4: (int32, int32, int32) = f4(1);"),
+    ("Vec of tuples pushed at the wrong arity", "let v6: Vec[(int32, bool)] = vec_new(); let _ = vec_push(v6, (1, true, 2));"),
 ]
 
 
